@@ -9,6 +9,10 @@ static DEFAULT_COMPRESSION_LEVEL: Value = Value::Integer(6);
 
 const MAX_COMPRESSION_LEVEL: u32 = 10;
 
+// The zlib backend (`zlib-rs`) asserts that the level is at most 9; level 10 only exists in the
+// `miniz_oxide` backend of `flate2`.
+const MAX_SUPPORTED_COMPRESSION_LEVEL: u32 = 9;
+
 const PARAMETERS: &[Parameter] = &[
     Parameter::required("value", kind::BYTES, "The string to encode."),
     Parameter::optional(
@@ -24,7 +28,13 @@ fn encode_gzip(value: Value, compression_level: Value) -> Resolved {
     // rejected instead of being wrapped or truncated into the accepted range.
     let level = compression_level.try_integer()?;
     let compression_level = match u32::try_from(level) {
-        Ok(level) if level <= MAX_COMPRESSION_LEVEL => flate2::Compression::new(level),
+        Ok(level) if level <= MAX_SUPPORTED_COMPRESSION_LEVEL => flate2::Compression::new(level),
+        Ok(level) if level <= MAX_COMPRESSION_LEVEL => {
+            return Err(format!(
+                "compression level {level} is not supported, the maximum is {MAX_SUPPORTED_COMPRESSION_LEVEL}"
+            )
+            .into());
+        }
         Err(_) if level < 0 => return Err("compression level must be >= 0".into()),
         _ => return Err(format!("compression level must be <= {MAX_COMPRESSION_LEVEL}").into()),
     };
@@ -109,7 +119,7 @@ impl FunctionExpression for EncodeGzipFn {
         let is_compression_level_valid_constant = if let Some(level) = &self.compression_level {
             match level.resolve_constant(state) {
                 Some(Value::Integer(level)) => {
-                    (0..=i64::from(MAX_COMPRESSION_LEVEL)).contains(&level)
+                    (0..=i64::from(MAX_SUPPORTED_COMPRESSION_LEVEL)).contains(&level)
                 }
                 _ => false,
             }
